@@ -49,13 +49,13 @@ func TestC08Transparency(t *testing.T) {
 	vlib.Run(t, "C08", func(c *vlib.Case) {
 		cl, err := StartCluster(2, false, func(i int, conf *config.Config) { conf.Proxy.Timeout = 20 * time.Second })
 		if err != nil {
-			c.Fatalf("harness: start cluster: %v", err)
+			c.Harnessf("start cluster: %v", err)
 		}
 		defer cl.Stop()
 		kind := c.OneOf("kind", "sdk-http", "agent-http")
 		up, err := ConnectUpstream(context.Background(), cl.Nodes[0], "u0", "e1", kind, UpstreamOpts{})
 		if err != nil {
-			c.Fatalf("harness: connect: %v", err)
+			c.Harnessf("connect: %v", err)
 		}
 		defer up.Disconnect()
 		var want c08Resp
@@ -114,7 +114,7 @@ func TestC08Transparency(t *testing.T) {
 			}
 			req, err := http.NewRequest(method, "http://"+entry.ProxyAddr()+uri, rdr)
 			if err != nil {
-				c.Fatalf("harness: bad generated request %q: %v", uri, err)
+				c.Harnessf("bad generated request %q: %v", uri, err)
 			}
 			req.Host = "e1.piko.test"
 			if c.Bool("hostPort") {
@@ -298,13 +298,13 @@ func TestC08Failures(t *testing.T) {
 		}
 		cl, err := StartCluster(2, false, func(i int, conf *config.Config) { conf.Proxy.Timeout = timeout })
 		if err != nil {
-			c.Fatalf("harness: start cluster: %v", err)
+			c.Harnessf("start cluster: %v", err)
 		}
 		defer cl.Stop()
 		kind := c.OneOf("kind", "sdk-http", "agent-http")
 		up, err := ConnectUpstream(context.Background(), cl.Nodes[0], "u0", "e1", kind, UpstreamOpts{})
 		if err != nil {
-			c.Fatalf("harness: connect: %v", err)
+			c.Harnessf("connect: %v", err)
 		}
 		defer up.Disconnect()
 		if !Eventually(Deadline(), func() bool {
